@@ -620,3 +620,111 @@ def run_case(ctx, spec, ck_cases=None, ck_meta=None):
     ctx.count(("gpc", spec), nontrivial=bool(nontrivial))
     return dict(kind="gpc", sub=sub, warping_blocks=nblocks, n=n, D=D, cond=cond, impl_mean_0_0=float(mu[0, 0]),
                 impl_var_0=float(var[0]))
+
+
+# --------------------------------------------------------------------------
+# LARGE data sets (numpy-reference path only): the likelihood and a couple of predictions for n in {64,128,260}
+# with the covariance scale / noise at the ends of their boxes, where det(K + sigsq I) itself is far outside the
+# binary64 range while its logarithm is an ordinary number
+# --------------------------------------------------------------------------
+LARGE_PROFILES = ["big_scale", "small_scale", "correlated_tiny_noise", "box_random", "big_noise", "generic"]
+
+
+def gen_large(rng, k):
+    prof = LARGE_PROFILES[k % len(LARGE_PROFILES)]
+    d = rng.randint(1, 3)
+    ard = d > 1 and rng.random() < 0.5
+    nib = d if ard else 1
+    if prof == "big_scale":
+        n, cs, noise, ibs = 260, 1e3 * rng.uniform(0.9, 0.999), loguniform(rng, 1e-3, 1.0), [loguniform(rng, 5, 30) for _ in range(nib)]
+    elif prof == "small_scale":
+        n, cs, noise, ibs = 260, 1e-3 * rng.uniform(1.001, 1.1), loguniform(rng, 1e-9, 1e-6), [loguniform(rng, 5, 30) for _ in range(nib)]
+    elif prof == "correlated_tiny_noise":
+        n, cs, noise, ibs = 128, loguniform(rng, 0.3, 3), 1e-9, [loguniform(rng, 0.05, 0.3) for _ in range(nib)]
+    elif prof == "box_random":
+        n, cs, noise, ibs = 64, loguniform(rng, 1e-3, 1e3), loguniform(rng, 1e-9, 1e6), [loguniform(rng, 1e-2, 50) for _ in range(nib)]
+    elif prof == "big_noise":
+        n, cs, noise, ibs = 128, 1e3 * rng.uniform(0.9, 0.999), 1e6 * rng.uniform(0.5, 0.999), [loguniform(rng, 1, 20) for _ in range(nib)]
+    else:
+        n, cs, noise, ibs = rng.choice([64, 128, 260]), loguniform(rng, 0.2, 5), loguniform(rng, 1e-4, 0.1), [loguniform(rng, 0.5, 10) for _ in range(nib)]
+    return dict(profile=prof, n=n, d=d, base=dict(d=d, ard=ard, ibs=ibs, cs=cs), noise=noise,
+                mean=rng.uniform(-1, 1), data_seed=rng.randrange(10 ** 9), t=2)
+
+
+def find_sigsq(K, noise):
+    """sigsq_final chosen by AddJitterOp (bit-exact constant of the documented sequence), or None"""
+    from syne_tune.optimizer.schedulers.searchers.bayesopt.gpautograd.custom_op import AddJitterOp, flatten_and_concat
+    from syne_tune.optimizer.schedulers.searchers.bayesopt.gpautograd.constants import NOISE_VARIANCE_LOWER_BOUND
+    sm = np.asarray(AddJitterOp(flatten_and_concat(K, np.array([noise])), initial_jitter_factor=NOISE_VARIANCE_LOWER_BOUND))
+    if np.all(np.diag(sm) == np.diag(K) + noise):
+        return noise
+    j = NOISE_VARIANCE_LOWER_BOUND * max(1.0, float(np.mean(np.diag(K))))
+    for _ in range(16):
+        if np.all(np.diag(K) + (noise + j) == np.diag(sm)):
+            return noise + j
+        j = j * 10.0
+    return None
+
+
+def run_large(ctx, spec):
+    import random
+    from syne_tune.optimizer.schedulers.searchers.bayesopt.gpautograd.posterior_state import GaussProcPosteriorState
+    from syne_tune.optimizer.schedulers.searchers.bayesopt.gpautograd.constants import MIN_POSTERIOR_VARIANCE
+    n, d, t, noise = spec["n"], spec["d"], spec["t"], float(spec["noise"])
+    drng = random.Random(spec["data_seed"])
+    X = np.array([[drng.random() for _ in range(d)] for _ in range(n)])
+    Xt = np.array([[drng.random() for _ in range(d)] for _ in range(t)])
+
+    def viol(what, quantity):
+        ctx.violation("property", "[large n=%d, %s] %s" % (n, spec["profile"], what), case=dict(kind="gpl", spec=spec),
+                      signature=dict(component="gp_posterior", quantity=quantity, large_n=True, profile=spec["profile"]))
+    issues = []
+    kern, ref = build_matern(spec["base"], "dict", issues)
+    for what_, q_ in issues:
+        viol(what_, q_)
+    meanf, mval = scalar_mean(spec["mean"])
+    Y = np.array([[mval + math.sqrt(ref.cs) * drng.gauss(0, 1)] for _ in range(n)])
+    state = GaussProcPosteriorState(X, Y, meanf, kern, np.array([noise]))
+    nl = float(np.reshape(state.neg_log_likelihood(), (-1,))[0])
+    mu, var = state.predict(Xt)
+    mu, var = np.asarray(mu).reshape(-1), np.asarray(var).reshape(-1)
+    K_impl = np.asarray(kern(X, X))
+    sig = find_sigsq(K_impl, noise)
+    ctx.h("large_profile", spec["profile"])
+    ctx.h("large_n", n)
+    ctx.h("large_jitter", sig is not None and sig != noise)
+    if sig is None:
+        viol("AddJitterOp diagonal is not K_ii + one constant of the documented sequence", "jitter")
+        return
+    ktol = ref.tol(np.vstack([X, Xt]), np.vstack([X, Xt]))
+    A = ref.k(X, X) + sig * np.eye(n)
+    Kt = ref.k(X, Xt)
+    R = Y - mval
+    alpha, beta = np.linalg.solve(A, R), np.linalg.solve(A, Kt)
+    sv = np.linalg.svd(A, compute_uv=False)
+    cond, ainv = float(sv[0] / sv[-1]), 1.0 / float(sv[-1])
+    sign, logdet = np.linalg.slogdet(A)
+    nll_r = 0.5 * (float(np.sum(R * alpha)) + logdet + n * math.log(2 * math.pi))
+    nrm = lambda a: float(np.linalg.norm(a))   # noqa: E731
+    ce = C_TOL * (n + 2) * EPS * cond
+    tolN = (ce * (nrm(R) * nrm(alpha) + n * (1 + abs(math.log(max(cond, 1.0))))) + 64 * EPS * abs(nll_r) * n
+            + n * ktol * (nrm(alpha) ** 2 + n * ainv))
+    ctx.h("large_nlml_tol_useful", bool(tolN < 1e-3 * (abs(nll_r) + n)))
+    if not (sign > 0 and math.isfinite(nll_r)):
+        return
+    if not abs(nl - nll_r) <= tolN:
+        viol("negative log marginal likelihood %r deviates from the dense slogdet expression %r (tol %.3g, cond %.3g, "
+             "log det = %.6g)" % (nl, nll_r, tolN, cond, logdet), "nlml")
+    mean_r = mval + (Kt.T @ alpha).reshape(-1)
+    var_r = np.maximum(ref.diag(Xt) - np.sum(Kt * beta, axis=0), MIN_POSTERIOR_VARIANCE)
+    tolM = max(ce * (nrm(Kt[:, s_]) * nrm(alpha) + abs(mean_r[s_])) + 2 * ktol * float(np.sum(np.abs(alpha)))
+               + 4 * ainv * n * ktol * nrm(Kt[:, s_]) * nrm(alpha) for s_ in range(t))
+    tolV = max(ce * (nrm(Kt[:, s_]) * nrm(beta[:, s_]) + ref.cs) + ktol * (1 + 4 * float(np.sum(np.abs(beta[:, s_]))))
+               + 4 * ainv * n * ktol * nrm(Kt[:, s_]) * nrm(beta[:, s_]) for s_ in range(t))
+    if not np.all(np.abs(mu - mean_r) <= tolM):
+        viol("predictive mean deviates from the dense expression by %.3g (tol %.3g)"
+             % (float(np.max(np.abs(mu - mean_r))), tolM), "mean")
+    if not np.all(np.abs(var - var_r) <= tolV):
+        viol("predictive variance deviates from the dense expression by %.3g (tol %.3g)"
+             % (float(np.max(np.abs(var - var_r))), tolV), "variance")
+    ctx.count(("gpl", spec), nontrivial=bool(tolN < 1e-3 * (abs(nll_r) + n)))
